@@ -70,7 +70,7 @@ def install_shape_rules(ev: Evaluator):
     ev.shape_table["call:linear_fit.perpendicular_distance_points"] = 0
 
 
-def build(rc: RuleCtx, qual: str, bind: Optional[Dict[str, Any]] = None) -> LoopModel:
+def build(rc: RuleCtx, qual: str, bind: Optional[Dict[str, Any]] = None, allow_break: bool = False) -> LoopModel:
     fi = rc.func(qual)
     ev = rc.new_eval()
     install_shape_rules(ev)
@@ -115,7 +115,7 @@ def build(rc: RuleCtx, qual: str, bind: Optional[Dict[str, Any]] = None) -> Loop
     except Unsupported as e:
         raise AnalysisError(f"{qual}: loop body not modelled: {e}")
     # `continue` only skips the rest of one step (the evaluator gates what follows it); leaving the loop early is another algorithm
-    if out.breaks or out.returns:
+    if out.returns or (out.breaks and not allow_break):
         raise AnalysisError(f"{qual}: break/return inside the work-stack loop")
     left, right = out.env.get("left"), out.env.get("right")
     # the popped range: the two names unpacked from the pop that bound the slice points[left:right]
@@ -317,3 +317,53 @@ def range_obligations(m: LoopModel, A: Rat, B: Rat, idx: Rat, iv: Interval, lmin
             why = f"{name}: worst case at index {'lower' if coef >= 0 else 'upper'} bound gives {val} >= 0 under L >= {lmin}: {'proved' if ok else 'NOT proved'}"
         out.append((name, ok, why))
     return out
+
+
+# --------------------------------------------------------------------------
+# the `distance` option selects the homonymous distance primitive
+# --------------------------------------------------------------------------
+
+def _funcs_in(v, acc: set):
+    if isinstance(v, Obj) and v.tag == "func":
+        acc.add(v.val)
+    elif isinstance(v, Vec):
+        for i_ in v.items:
+            _funcs_in(i_, acc)
+    elif isinstance(v, PW):
+        for _g, c_ in v.cases:
+            _funcs_in(c_, acc)
+
+
+def check_distance_dispatch(rc, rule: str, qual: str):
+    """For every member m of rdp.Distance the function value that reaches the split loop (a local slot or the
+    argument of the loop helper) is exactly linear_fit.<m>_distance_points."""
+    res = rc.res
+    fi = rc.func(qual)
+    members = rc.repo.mod("rdp").classes["Distance"].enum_members
+    family = {f.qualname for f in rc.repo.mod("linear_fit").all_functions if f.name.endswith("_distance_points")}
+    for m_ in members:
+        want = f"linear_fit.{m_}_distance_points"
+        if want not in family:
+            raise AnalysisError(f"Distance.{m_} has no linear_fit.{m_}_distance_points primitive - naming convention not recognised")
+        ev = rc.new_eval()
+        pts = ev.point("points", True)
+        ev.len_map = {"points": sym("n")}
+        try:
+            out = ev.eval_function(fi, {"points": pts, "distance": Obj("enum", f"Distance.{m_}")})
+        except Unsupported as e:
+            raise AnalysisError(f"{qual}: not modelled for the distance dispatch: {e}")
+        acc: set = set()
+        for v in out.env.values():
+            _funcs_in(v, acc)
+        for e in out.events:
+            for a in e.args:
+                _funcs_in(a, acc)
+        got = acc & family
+        if not got:
+            raise AnalysisError(f"{qual}: no distance primitive reaches the split loop for Distance.{m_} - shape not recognised")
+        if got == {want}:
+            res.ok(rule, f"{qual}[Distance.{m_}]", f"splits are chosen with {want}")
+        else:
+            res.violation(rule, fi.module, fi.name, fi.node,
+                          f"with distance=Distance.{m_} the split point is chosen with {sorted(got)} instead of {want}: the retained points are not the farthest ones under the selected distance",
+                          str(sorted(got)), want, construct=f"distance dispatch {m_}")
